@@ -324,3 +324,9 @@ def run(chk, facts, tier):
     # "a JSON policy that is accepted evaluates exactly like the Cedar text it prints as": the printer's structure (shared with C05)
     from rules import C05
     C05.printer(chk, facts)
+    from rules import c06_scope_variants
+    c06_scope_variants.check(chk, facts)
+    # decoding a policy set from protobuf rebuilds the API wrapper through PolicySet::from_ast: its shadow tables (shared with C08)
+    facts.load_crate("cedar_policy.lib")
+    from rules import C08 as _c08
+    _c08.wrapper_tables(chk, facts)
